@@ -40,6 +40,7 @@ class Parent(Base):
     children = relationship("Child", back_populates="parent", foreign_keys="Child.parent_id")
     owned = relationship("Child", back_populates="owner", foreign_keys="Child.owner_id")
     tags = relationship("Tag", secondary=parent_tags, back_populates="parents")
+    notes = relationship("Note", back_populates="parent")
 
 
 class Child(Base):
@@ -51,3 +52,14 @@ class Child(Base):
     owner_id = sa.Column(sa.ForeignKey("vt_parent.id"))
     parent = relationship("Parent", back_populates="children", foreign_keys=[parent_id])
     owner = relationship("Parent", back_populates="owned", foreign_keys=[owner_id])
+    notes = relationship("Note", back_populates="child")
+
+
+class Note(Base):
+    __tablename__ = "vt_note"
+    id = sa.Column(sa.Integer, primary_key=True)
+    text = sa.Column(sa.String(20))
+    parent_id = sa.Column(sa.ForeignKey("vt_parent.id"))
+    child_id = sa.Column(sa.ForeignKey("vt_child.id"))
+    parent = relationship("Parent", back_populates="notes")
+    child = relationship("Child", back_populates="notes")
